@@ -89,7 +89,8 @@ def buildWitnessTree (txs : List Tx) : Res (Option (List Bytes)) :=
   match txs.mapM getHash with
   | .error e => .error e
   | .ok hashes =>
-    if !(txs.any (·.hasWitness)) then .ok none
+    -- `has_witness |= tx.has_witness()` with `has_witness() = not self.wit.is_null()`
+    if !(txs.any (fun t => !witIsNull t.wit)) then .ok none
     else
       -- `hashes[0] = b'\x00' * 32`
       match hashes with
